@@ -11,14 +11,14 @@ PROFILES = {
         "features": FLOW_INLINE | {"run.ins", "run.del", "run.comment-ref", "run.note-ref", "run.field", "container.sdt.inline", "para.heading", "list.flat", "list.nested",
                                    "table.simple", "table.multi-para-cell", "table.nested", "table.empty-cell", "table.header-rows", "container.sdt", "container.textbox",
                                    "excluded.header-footer", "excluded.comment"},
-        "table_text_in_full_text": True, "unit_kind": "flow", "max_units": 1, "opts": {"heading_styles": [None, None, "id-only"]},
+        "table_text_in_full_text": True, "unit_kind": "flow", "max_units": 1, "opts": {"heading_styles": [None, None, "id-only"], "no_core": [False, False, True]},
     },
     "pptx": {
         "ext": "pptx", "render": lambda doc, **kw: ooxml.render_pptx(doc, **kw), "selfcheck": ooxml.wellformed,
         "features": {"run.multi", "run.tab", "run.break", "run.link", "run.field", "para.heading", "list.flat", "list.nested", "table.simple", "table.multi-para-cell", "table.empty-cell",
                      "container.group", "unit.multi", "unit.empty", "excluded.speaker-notes", "excluded.header-footer", "excluded.comment"},
         "table_text_in_full_text": True, "unit_kind": "slide", "max_units": 4,
-        "opts": {"permute_parts": [False, True], "abs_targets": [False, False, True], "layout": [None, None, "same"], "merged_cells": [False, False, True]},
+        "opts": {"permute_parts": [False, True], "abs_targets": [False, False, True], "layout": [None, None, "same"], "merged_cells": [False, False, True], "no_core": [False, False, True]},
         "residue_ignore": r"\b\d{1,3}\b",  # slide-number placeholders are deliberately kept by the extractor (class M)
     },
     "odt": {
